@@ -1,6 +1,6 @@
 (* AlgExplicit.v — the documented bases and inner weights written out (property C07). *)
 From Coq Require Import Reals ZArith List Lra.
-From Manif Require Import Scalar Mat Consts Group RInst Tac SO2 SE2 SO3 SE3 SE23 SGal3 Rn Generic AlgSpec RnProofs AlgTac.
+From Manif Require Import Scalar Mat Consts Group RInst Tac SO2 SE2 SO3 SE3 SE23 SGal3 Rn Generic LieSpec AlgSpec RnProofs AlgTac.
 Import ListNotations.
 Local Open Scope R_scope.
 
